@@ -314,6 +314,10 @@ func (f *recvFilter) OnReceive(ctx context.Context, headers api.HeaderMap, buf b
 		headers.Set(answerHdr, markerOf(f.cfg.index, v))
 		f.handler.SendHijackReply(code, headers)
 		return api.StreamFilterStop
+	case 'K': // answers like 'H' but returns Continue (a filter that does not know it has to stop): the answer stands all the same
+		headers.Set(answerHdr, markerOf(f.cfg.index, v))
+		f.handler.SendHijackReply(code, headers)
+		return api.StreamFilterContinue
 	case 'B':
 		headers.Set(answerHdr, markerOf(f.cfg.index, v))
 		f.handler.SendHijackReplyWithBody(code, headers, answerBody(f.cfg.index, v, tok))
